@@ -78,6 +78,9 @@ def namelen(n, tiers):
         defines=dict(NAMELEN=n), unwind=n + 3, tiers=tiers, timeout=300, reach=["accepted" if n <= 256 else "refused"],
         functions=["sqfs_dir_writer_add_entry (lib/sqfs/src/dir_writer.c)"], bound="a name of exactly %d bytes" % n)
 OBLIGATIONS += [namelen(256, ["quick", "thorough"]), namelen(257, ["quick", "thorough"])]
+OBLIGATIONS.append(dict(name="tree_node_values_fit_or_refused", harness="harness/C01_mknode.c", sources=["lib/util/src/canonicalize_name.c"], included_sources=["lib/fstree/src/fstree.c"],
+    unwind=6, tiers=["quick", "thorough"], timeout=300, reach=["created", "refused"], functions=["mknode, insert_sorted (lib/fstree/src/fstree.c)"],
+    bound="one entry (file, directory, character/block device, fifo) with symbolic 64 bit uid, gid, device number and time stamp"))
 OBLIGATIONS.append(dict(name="packfile_keywords", harness="harness/C01_packfile.c",
     sources=["lib/util/src/parse_int.c", "lib/util/src/canonicalize_name.c", "lib/util/src/split_line.c", "lib/util/src/alloc.c"], stubs=["stubs/vp_ctype.c", "stubs/vp_sysmacros.c"],
     included_sources=["bin/gensquashfs/src/fstree_from_file.c"], incdirs=["bin/gensquashfs/src"], unwind=12, tiers=["quick", "thorough"], timeout=300, reach=["done"],
